@@ -27,6 +27,19 @@ type Built struct {
 	CtxTag  interface{}
 	envSet  []string
 	SetErrs []string // error kinds of the definition's SetValue calls
+	envFns  map[int]getoptions.ModifyFn
+}
+
+// scrubEnv - every variable the definition binds or sets is absent.
+func (b *Built) scrubEnv() {
+	for _, e := range b.Cfg.Env {
+		os.Unsetenv(FromAtoms(e.Name))
+	}
+	for _, o := range b.Cfg.Opts {
+		if len(o.Env) > 0 {
+			os.Unsetenv(FromAtoms(o.Env))
+		}
+	}
 }
 
 func (c *Cfg) children(n int) []int {
@@ -102,12 +115,22 @@ func (b *Built) Cleanup() {
 // Build - define the program. Panics of the library propagate to the caller.
 func Build(cfg *Cfg) *Built {
 	b := &Built{Cfg: cfg, CtxTag: new(int)}
-	b.setEnv()
 	os.Args = []string{FromAtoms(cfg.Prog)}
 	if cfg.Self {
 		os.Args = []string{"/some/where/else"}
 	}
 	root := getoptions.New()
+	if cfg.EnvLate {
+		// the modifiers exist before the variables do
+		b.scrubEnv()
+		b.envFns = map[int]getoptions.ModifyFn{}
+		for i, o := range cfg.Opts {
+			if len(o.Env) > 0 {
+				b.envFns[i] = root.GetEnv(FromAtoms(o.Env))
+			}
+		}
+	}
+	b.setEnv()
 	if cfg.Self {
 		root.Self(FromAtoms(cfg.Prog), FromAtoms(cfg.Desc))
 	} else if len(cfg.Desc) > 0 {
@@ -287,7 +310,11 @@ func (b *Built) defineOpt(i int, g *getoptions.GetOpt) {
 		fns = append(fns, g.SuggestedValuesFn(func(target string, partial string) []string { return append([]string{}, out...) }))
 	}
 	if len(o.Env) > 0 {
-		fns = append(fns, g.GetEnv(FromAtoms(o.Env)))
+		if fn, ok := b.envFns[i]; ok {
+			fns = append(fns, fn)
+		} else {
+			fns = append(fns, g.GetEnv(FromAtoms(o.Env)))
+		}
 	}
 	if o.SetCalled {
 		fns = append(fns, g.SetCalled(true))
